@@ -6,6 +6,8 @@ export GOFLAGS=-mod=mod GOPROXY=off
 cd "$wt" || exit 2
 out=/verif/seeded/$id; mkdir -p $out
 cp SEED_OUT/patch.diff $out/patch.diff
+# the worktree must contain exactly the recorded change (agents share one stash ref: do not trust the tree)
+git checkout -q -- . && git apply SEED_OUT/patch.diff || { echo "patch.diff does not apply to a clean tree"; exit 2; }
 demo=$(python3 -c "import json;print(json.load(open('SEED_OUT/meta.json')).get('demo_cmd',''))")
 pkgs=$(go list ./... | grep -v "zz_demo\|SEED_OUT")
 suite=$(go test -vet=off -count=1 -timeout 20m $pkgs 2>&1 | grep -v "^ok\|no test files" | head -5)
